@@ -1,13 +1,15 @@
 """Property -> obligations registry.  Floors are instance counts confirmed by hand on the pinned tree."""
 import json, os
 from .core import FLAVOURS, DIRECTED, UNDIRECTED, SYNC, PLAIN
-from . import rules_kernel as rk, dispatch as dp
+from . import rules_kernel as rk, dispatch as dp, rules_guard as rg, rules_edge as re_, rules_bt as rb, rules_misc as rm
 
 ALLF = ('Bfs', 'Dfs', 'Pfs', 'Order')
 HERE = os.path.dirname(os.path.abspath(__file__))
 
 
-def _r(name, fn, *args, **kw):
+def _r(name, fn, *args, only=None, **kw):
+    if only:
+        return (name, lambda ctx: [o for o in fn(ctx, *args, **kw) if o['rule'] in only])
     return (name, lambda ctx: fn(ctx, *args, **kw))
 
 
@@ -35,12 +37,113 @@ def floors_for(pid):
     return json.load(open(p)).get(pid, {})
 
 
+
+STD = ['std Vec/VecDeque/BinaryHeap/HashSet/HashMap behave as documented', 'payload trait impls on K/N/E (Eq, Hash, Clone, Ord, Display) are pure and do not call back into the graph']
+
+PROPS['C01'] = dict(
+    rules=[_r('P1', re_.p1_connect, DIRECTED), _r('P2', re_.p2_disconnect_directed, DIRECTED), _r('P3', re_.p3_isolate, DIRECTED),
+           _r('RM1', re_.rm1_first_match, DIRECTED), _r('SYM', re_.sym, DIRECTED), _r('ENC', re_.enc, DIRECTED), _r('OBS', re_.obs, DIRECTED),
+           _r('IT2', rg.it2, DIRECTED), _r('ORIENT', re_.orient, DIRECTED)],
+    explanation='Induction premises for the mirror invariant of the directed flavours: the invariant holds for Adjacent::new (two empty Vecs, ENC-new), is preserved by each of the '
+                'three mutators (P1 connect pushes the pair, P2 disconnect removes the pair keyed by each other, P3 isolate removes every mirror entry then clears), removals are '
+                'first-match forward scans on both sides (RM1, SYM), nothing else writes the lists (ENC a-d), and every observer reads the list its name says (OBS, IT2/ORIENT).',
+    decides='effect sets, owners, keys and list roles of connect/disconnect/isolate on every path; frame (who may touch the lists); observer footprints',
+    does_not_decide='Vec::push/remove semantics and the induction step itself (argued in DESIGN.md); behaviour once a neighbour node has been dropped (excluded by "live nodes")',
+    assumptions=STD,
+)
+PROPS['C02'] = dict(
+    rules=[_r('P1', re_.p1_connect, UNDIRECTED), _r('P2u', re_.p2_disconnect_undirected, UNDIRECTED), _r('P3', re_.p3_isolate, UNDIRECTED),
+           _r('RM1', re_.rm1_first_match, UNDIRECTED), _r('SYM', re_.sym, UNDIRECTED), _r('ENC', re_.enc, UNDIRECTED), _r('OBS', re_.obs, UNDIRECTED),
+           _r('GET-ADJ', re_.get_adj, UNDIRECTED), _r('IT2', rg.it2, UNDIRECTED), _r('ORIENT', re_.orient, UNDIRECTED)],
+    explanation='Same scheme for the undirected flavours: every edge is two half-edges (owner OUT list, partner IN list); connect pushes both halves, disconnect removes one half at '
+                'the caller and the complementary half at the peer (P2u), isolate removes the partner half at every neighbour (P3), the adjacency view is OUT ++ IN with the exact '
+                'index arithmetic (GET-ADJ), degree adds both lengths once (OBS).',
+    decides='effect sets / pairing of half-edges on every path; frame; observer footprints; index arithmetic of the concatenated view',
+    does_not_decide='Vec semantics; the induction step (argued in DESIGN.md)',
+    assumptions=STD,
+)
+PROPS['C03'] = dict(
+    rules=[_r('P1', re_.p1_connect, FLAVOURS), _r('P2', re_.p2_disconnect_directed, DIRECTED), _r('P2u', re_.p2_disconnect_undirected, UNDIRECTED), _r('P3', re_.p3_isolate, FLAVOURS),
+           _r('T1', re_.t1_try_connect, FLAVOURS), _r('T2', re_.t2_disconnect_result, FLAVOURS), _r('RM1', re_.rm1_first_match, FLAVOURS),
+           _r('ENC', re_.enc, FLAVOURS), _r('G3', rg.g3, FLAVOURS), _r('GET-ADJ', re_.get_adj, UNDIRECTED)],
+    explanation='Multigraph contract of the four edge operations on all four flavours: exactly-one-edge effects (P1/P2/P3), try_connect guarded by the existence query with the right '
+                'footprint (T1), disconnect result/error set (T2), order-preserving list operations only (ENC-b: push/remove/clear; RM1 first match), one allocation per node so any '
+                'handle is the same node (ENC-d), and no conflicting re-acquisition of a node cell anywhere (G3: no RefCell double borrow panic / RwLock self-deadlock, with every pair of '
+                'nodes assumed to alias, so self-loops are covered).',
+    decides='effects, guards, error sets and guard lifetimes on every MIR path',
+    does_not_decide='panics from upgrade().unwrap() on a dropped peer (excluded by "live nodes"); the two unwraps in isolate (unreachable while C01/C02 hold)',
+    assumptions=STD,
+)
+PROPS['C20'] = dict(
+    rules=[_r('IT1', rg.it1, FLAVOURS), _r('IT2', rg.it2, FLAVOURS), _r('G2', rg.g2, FLAVOURS), _r('G3', rg.g3, FLAVOURS),
+           _r('ROLES', rk.roles, ALLF, FLAVOURS), _r('DISC', rk.disc, ALLF, FLAVOURS, only=('DISC-ii', 'DISC-iii'))],
+    explanation='A guard-lifetime statement: no iterator/builder type stores a guard (IT1); each node-iterator step takes one shared guard, reads the live entry at its position and '
+                'releases (IT2); no guard is held where a user callback runs or where an iterator is advanced, in all 48 kernels, isolate, scc, DOT and serde writers (G2); no conflicting '
+                're-acquisition anywhere (G3). Termination clause: nodes enter a frontier only when newly marked (DISC ii/iii).',
+    decides='which guards are live at every call site of every function (forward dataflow on MIR with function summaries)',
+    does_not_decide='re-entrancy through payload trait impls that run under a guard in next()/find_* (E::clone, K::eq), assumed not to call back into the graph',
+    assumptions=STD,
+)
 PROPS['C04'] = dict(
-    rules=kernel_pack(('Bfs',), FLAVOURS) + [_r('RESMAP', dp.result_map, FLAVOURS, ('Bfs',)), _r('TR1', dp.tr1, DIRECTED, ('Bfs',)), _r('METHOD', rk.method, FLAVOURS)],
+    rules=kernel_pack(('Bfs',), FLAVOURS) + [_r('RESMAP', dp.result_map, FLAVOURS, ('Bfs',)), _r('TR1', dp.tr1, DIRECTED, ('Bfs',)), _r('METHOD', rk.method, FLAVOURS), _r('BT', rb.bt, FLAVOURS)],
     explanation='Breadth-first kernels (12) and their entry points: FIFO frontier (BFS1), discovery discipline (DISC i-vii), exhaustive expansion (EXH), '
                 'callback-first (EXEC1), orientation (TR0/TR1), seeding (INIT), result mapping (RESMAP), back-tracking (BT) decided on MIR by dominance and provenance.',
     decides='the structural premises of the textbook BFS argument on every path of every kernel and entry point',
     does_not_decide='the textbook step from (FIFO + mark-on-discovery + exhaustive expansion + back-tracking join) to "shortest path iff reachable"; VecDeque/HashSet semantics',
     assumptions=['std VecDeque/HashSet/Vec behave as documented', 'payload trait impls (K: Eq+Hash, E: Clone) are pure'],
+)
+
+PROPS['C05'] = dict(
+    rules=kernel_pack(('Dfs',), FLAVOURS) + [_r('RESMAP', dp.result_map, FLAVOURS, ('Dfs',)), _r('TR1', dp.tr1, DIRECTED, ('Dfs',)), _r('METHOD', rk.method, FLAVOURS), _r('BT', rb.bt, FLAVOURS)],
+    explanation='Depth-first kernels (12 recursive) and entries: LIFO frontier with push(FAR) immediately followed by the recursive call (DFS1), discovery discipline (DISC), no early exit and '
+                'found-propagation (EXH), callback-first (EXEC1), orientation, seeding, result mapping and back-tracking (BT).',
+    decides='the structural premises of "DFS finds a simple path iff reachable" on every path of every kernel',
+    does_not_decide='the textbook step from those premises to the graph-theoretic statement',
+    assumptions=STD,
+)
+PROPS['C06'] = dict(
+    rules=kernel_pack(('Pfs',), FLAVOURS) + [_r('PFS1', dp.pfs1, FLAVOURS), _r('RESMAP', dp.result_map, FLAVOURS, ('Pfs',)), _r('TR1', dp.tr1, DIRECTED, ('Pfs',)),
+                                           _r('METHOD', rk.method, FLAVOURS), _r('BT', rb.bt, FLAVOURS), _r('ORD-NODE', rm.ord_node, FLAVOURS), _r('PFS-SEARCH', rm.pfs_search, FLAVOURS)],
+    explanation='Priority-first kernels (12) and entries: BinaryHeap pop/push with Reverse exactly on the Min arms (PFS-FRONT, PFS1), discovery discipline incl. closing edge recorded before '
+                'FOUND (DISC iv/v), no early exit, node ordering by value identically through Ord and PartialOrd and equality by key (ORD-NODE), search = last node of search_path.',
+    decides='heap discipline, Min/Max dispatch, comparison impls, discovery discipline',
+    does_not_decide='BinaryHeap pop-minimum contract (trusted std); ties',
+    assumptions=STD,
+)
+PROPS['C07'] = dict(
+    rules=[_r('ROLES', rk.roles, ALLF, FLAVOURS), _r('EXEC1', rk.exec1, ALLF, FLAVOURS), _r('DISC', rk.disc, ALLF, FLAVOURS), _r('EXH', rk.exh, ALLF, FLAVOURS),
+           _r('TR0', rk.tr0, ALLF, FLAVOURS), _r('INIT', dp.init, FLAVOURS), _r('METHOD', rk.method, FLAVOURS), _r('REV', rm.rev, FLAVOURS), _r('IT2', rg.it2, FLAVOURS), _r('ORIENT', re_.orient, FLAVOURS)],
+    explanation='All 48 kernels: the callback runs first and exactly once per yielded edge (EXEC1), a rejected edge neither marks, records nor extends reachability (DISC i), the edge handed '
+                'over is the live iterator item or its value-preserving reverse (DISC vi/vii, REV, IT2), every reachable node is expanded once and completely (EXH, DISC ii/iii, INIT), '
+                'and the dispatcher maps Empty/ForEach/Filter correctly (METHOD).',
+    decides='callback position/multiplicity and filter semantics on every path',
+    does_not_decide='the step to "every reachable edge exactly once" (textbook, from the premises)',
+    assumptions=STD,
+)
+PROPS['C08'] = dict(
+    rules=[_r('ROLES', rk.roles, ALLF, DIRECTED), _r('TR0', rk.tr0, ALLF, DIRECTED), _r('TR1', dp.tr1, DIRECTED), _r('TR2', dp.tr2, DIRECTED), _r('REV', rm.rev, DIRECTED),
+           _r('ORIENT', re_.orient, DIRECTED), _r('DISC', rk.disc, ALLF, DIRECTED)],
+    explanation='Directed flavours: every kernel has a well-formed orientation signature (OUT = iter_out + item, IN = iter_in + reversed item; TR0), every entry point sends the Outbound arm '
+                'to an OUT kernel and the Inbound arm to an IN kernel (TR1, 28 arms per flavour), constructors default to Outbound and only transpose() stores Inbound (TR2), reverse '
+                'swaps endpoints and keeps the value (REV), iter_in reads the IN list and presents (peer, self) (ORIENT).',
+    decides='dispatch tables and orientation of every kernel',
+    does_not_decide='nothing beyond the per-kernel search properties C04-C10, which are checked for IN kernels exactly as for OUT kernels',
+    assumptions=STD,
+)
+PROPS['C09'] = dict(
+    rules=kernel_pack(('Bfs', 'Dfs', 'Pfs'), FLAVOURS) + [_r('RESMAP', dp.result_map, FLAVOURS), _r('TR1', dp.tr1, DIRECTED, ('Bfs', 'Dfs', 'Pfs')), _r('PFS1', dp.pfs1, FLAVOURS), _r('BT', rb.bt, FLAVOURS)],
+    explanation='12 cycle entries: target := key(root), root queued and not marked so that it can be re-discovered (CYC-INIT), then the same kernels (DISC/EXH/FRONT), transposed arms (TR1), '
+                'and back-tracking incl. BT-disjoint (the closing edge is not joined to itself).',
+    decides='seeding of cycle searches, kernel discipline, back-tracking join and range',
+    does_not_decide='the textbook step to "a cycle through the root iff one exists"',
+    assumptions=STD,
+)
+PROPS['C10'] = dict(
+    rules=kernel_pack(('Order',), FLAVOURS) + [_r('ORD1', rk.ord1, FLAVOURS), _r('ORD2', rm.ord2, FLAVOURS), _r('TR1', dp.tr1, DIRECTED, ('Order',)), _r('TR2', dp.tr2, DIRECTED), _r('METHOD', rk.method, FLAVOURS)],
+    explanation='12 ordering kernels and 8 entries: emission before the recursive call in kernels selected by the Pre arm and after it in kernels selected by the Post arm (ORD1), assembly '
+                'root-first / root-last with node list = targets of the recorded edges (ORD2), one entering edge per reachable non-root node (DISC), LIFO descent (DFS1), no early exit (EXH).',
+    decides='emission position, assembly and discovery discipline of the ordering kernels',
+    does_not_decide='that ORD1+DFS1 yield a DFS discovery / finishing order (textbook)',
+    assumptions=STD,
 )
 NOT_APPLICABLE = {}
